@@ -64,7 +64,7 @@ let () =
           let k = List.length calls in
           let blocked = List.filter (fun t -> match (s.s_thr (nat_of_int t)).t_pc with PDone -> false | _ -> true) (List.init k (fun x -> x)) in
           Printf.printf "%s%s Q=%d blocked=%s end=%s\n"
-            (if s.s_bad then "BAD " else "")
+            (if s.s_bad || r.d_fail then "BAD " else "")
             (if evs = [] then "-" else String.concat " " evs)
             (List.length s.s_map)
             (if blocked = [] then "-" else String.concat "," (List.map string_of_int blocked))
